@@ -10,6 +10,7 @@ use crate::oracle::units as U;
 use crate::oracle::units::rel_close;
 use crate::report::Report;
 use crate::rng::{hash_str, Rng};
+use routee_compass_core::model::unit::as_f64::AsF64;
 use routee_compass::app::compass::compass_app::CompassApp;
 use routee_compass_core::model::unit::{DistanceUnit, TimeUnit};
 use serde_json::{json, Value};
@@ -154,6 +155,13 @@ impl Denver {
 
 #[derive(Clone, Copy, PartialEq, Debug)]
 pub enum Cfg {
+    /// osm_default_distance.toml exactly as shipped. it declares no `distance` state feature (the distance traversal
+    /// model leaves that to a [state] section, which the file lacks), so every query is refused while the search is
+    /// built ("sum of state variable coefficients must be non-zero"); only what happens before the search (vertex
+    /// matching, expansion, one answer per query) can be observed with it
+    DistanceAsShipped,
+    /// the same text with the missing section appended (`[state]` declaring distance in miles for the traversal model and
+    /// time in minutes for the turn delays)
     Distance,
     Speed,
 }
@@ -161,14 +169,26 @@ pub enum Cfg {
 impl Cfg {
     fn file(&self) -> &'static str {
         match self {
-            Cfg::Distance => "osm_default_distance.toml",
+            Cfg::DistanceAsShipped | Cfg::Distance => "osm_default_distance.toml",
             Cfg::Speed => "osm_default_speed.toml",
         }
     }
     fn name(&self) -> &'static str {
         match self {
+            Cfg::DistanceAsShipped => "distance-as-shipped",
             Cfg::Distance => "distance",
             Cfg::Speed => "speed",
+        }
+    }
+    fn build(&self) -> Result<CompassApp, String> {
+        let path = PathBuf::from(DIR).join(self.file());
+        match self {
+            Cfg::Distance => {
+                let mut text = std::fs::read_to_string(&path).map_err(|e| e.to_string())?;
+                text.push_str("\n[state]\ndistance = { distance_unit = \"miles\", initial = 0.0 }\ntime = { time_unit = \"minutes\", initial = 0.0 }\n");
+                CompassApp::try_from_config_toml_string(text, path.to_string_lossy().to_string(), &routee_compass::app::compass::config::compass_app_builder::CompassAppBuilder::default()).map_err(|e| e.to_string())
+            }
+            _ => CompassApp::try_from(path.as_path()).map_err(|e| e.to_string()),
         }
     }
 }
@@ -255,8 +275,19 @@ fn batch_case(prop: &str, cfg: Cfg, app: &CompassApp, dv: &Denver, case_no: usiz
         }
     };
     rep.count("shipped_batches", 1);
-    let expected: usize = qs.iter().map(|q| q.expansions.len()).sum();
-    if (prop == "C06" || prop == "C17") && responses.len() != expected {
+    // vertex matching runs before grid search: a query it refuses is answered once, unexpanded; in the 1 % band around
+    // the tolerance either outcome is accepted
+    let expect_n = |q: &Q| -> Option<usize> {
+        if q.o.1 > TOL_M * 1.01 || q.d.1 > TOL_M * 1.01 {
+            Some(1)
+        } else if q.o.1 < TOL_M * 0.99 && q.d.1 < TOL_M * 0.99 {
+            Some(q.expansions.len())
+        } else {
+            None
+        }
+    };
+    let expected: usize = qs.iter().map(|q| expect_n(q).unwrap_or(0)).sum();
+    if (prop == "C06" || prop == "C17") && qs.iter().all(|q| expect_n(q).is_some()) && responses.len() != expected {
         rep.violate(&format!("{prop}|shipped|{}|response-count", cfg.name()), format!("{} responses for {} queries expanding to {expected}", responses.len(), qs.len()), || json!({"config": cfg.file(), "batch": batch, "parallelism": par}));
     }
     let dbg = std::env::var("VERIF_SHIPPED_DUMP").is_ok();
@@ -268,11 +299,15 @@ fn batch_case(prop: &str, cfg: Cfg, app: &CompassApp, dv: &Denver, case_no: usiz
         let mine: Vec<&Value> = responses.iter().filter(|r| r["request"]["qid"].as_str() == Some(q.qid.as_str())).collect();
         if prop == "C06" || prop == "C17" {
             rep.eval();
-            if mine.len() != q.expansions.len() {
-                rep.violate(&format!("{prop}|shipped|{}|responses-per-query", cfg.name()), format!("query {} has {} responses, its grid section expands to {}", q.qid, mine.len(), q.expansions.len()), || json!({"config": cfg.file(), "batch": batch, "parallelism": par}));
+            let want_n = match expect_n(q) {
+                Some(n) => n,
+                None => continue,
+            };
+            if mine.len() != want_n {
+                rep.violate(&format!("{prop}|shipped|{}|responses-per-query", cfg.name()), format!("query {} has {} responses; matched or refused before grid search it should have {want_n}", q.qid, mine.len()), || json!({"config": cfg.file(), "batch": batch, "parallelism": par}));
                 continue;
             }
-            if prop == "C17" {
+            if prop == "C17" && q.o.1 < TOL_M * 0.99 && q.d.1 < TOL_M * 0.99 && q.query.get("grid_search").is_some() {
                 let mut names: Vec<String> = mine.iter().map(|r| r["request"]["name"].as_str().unwrap_or("").to_string()).collect();
                 let mut want: Vec<String> = q.expansions.iter().map(|x| x.0.clone()).collect();
                 names.sort();
@@ -345,6 +380,11 @@ fn batch_case(prop: &str, cfg: Cfg, app: &CompassApp, dv: &Denver, case_no: usiz
             let reach = reachable(&dv.net, &allowed, o, true)[d];
             if prop == "C05" {
                 if o == d {
+                    continue;
+                }
+                if err.as_deref().map(|e| e.contains("failure building search algorithm")).unwrap_or(false) {
+                    // refused while the search was being built: there was no search whose verdict could be judged
+                    rep.count("shipped_queries_refused_before_the_search", 1);
                     continue;
                 }
                 match (&err, reach) {
@@ -460,7 +500,7 @@ fn batch_case(prop: &str, cfg: Cfg, app: &CompassApp, dv: &Denver, case_no: usiz
             // ---- C02: least cost under the objective, where edge costs do not depend on the turn taken
             if prop == "C02" {
                 let (wd, wt) = match cfg {
-                    Cfg::Distance => (1.0, 0.0),
+                    Cfg::Distance | Cfg::DistanceAsShipped => (1.0, 0.0),
                     Cfg::Speed => q.expansions.iter().find(|x| Some(x.0.as_str()) == r["request"]["name"].as_str() || x.0.is_empty()).and_then(|x| x.1).unwrap_or((1.0, 1.0)),
                 };
                 if wt != 0.0 {
@@ -634,11 +674,11 @@ pub fn run(prop: &str, tier: Tier, seed: u64) -> Report {
     }
     let cfgs: &[Cfg] = match prop {
         "C17" => &[Cfg::Speed],
+        "C16" | "C06" => &[Cfg::DistanceAsShipped, Cfg::Distance, Cfg::Speed],
         _ => &[Cfg::Distance, Cfg::Speed],
     };
     for cfg in cfgs {
-        let path = PathBuf::from(DIR).join(cfg.file());
-        let app = match catch(|| CompassApp::try_from(path.as_path())) {
+        let app = match catch(|| cfg.build()) {
             Ok(Ok(a)) => a,
             Ok(Err(e)) => {
                 rep.violate(&format!("{prop}|shipped|{}|CompassApp::try_from|load-error", cfg.name()), format!("the shipped configuration was refused: {e}"), || json!({"config": cfg.file()}));
